@@ -7,8 +7,8 @@
    being the i-th of them; `sched` is any transport schedule of the network;
    `count_at s c i log` is the number of times message i was handed to the
    subscribers of side s on channel c. *)
-From Coq Require Import List Bool Arith PeanoNat.
-From RP Require Import Fwd.Model Fwd.Oracle Fwd.Proofs Fwd.Life Fwd.LifeOracle Fwd.LifeProofs Fwd.Fault Fwd.FaultOracle Fwd.FaultProofs.
+From Coq Require Import List Bool Arith PeanoNat FinFun.
+From RP Require Import Fwd.Model Fwd.Oracle Fwd.Proofs Fwd.Life Fwd.LifeOracle Fwd.LifeProofs Fwd.Fault Fwd.FaultOracle Fwd.FaultProofs Fwd.NamesProofs.
 Import ListNotations.
 
 (* exact delivery counts: for every number of pilots, every batch of posts
@@ -388,3 +388,38 @@ Example C16_fault_nonvacuous :
        mkev 0 Control 2 None (Some true); mkev 1 Control 1 (Some 0) (Some false) ],
      5, true, 2, [((0, false, Control), 0); ((0, false, Control), 2)]).
 Proof. vm_compute. reflexivity. Qed.
+
+(* ==== the ids of the sides (RP.Fwd.NamesProofs) ====================================
+   Origin markers are compared for EQUALITY of side ids -- `msg['origin'] ==
+   self._module` in the code, Nat.eqb on abstract side ids in pubsub_fwd.  The
+   model never looks into an id; which strings the ids are (generated
+   'pilot.0007', user-chosen 'p1' / 'p10', ids that contain one another) is
+   carried by the correspondence, which names the sides differently per case. *)
+
+(* exact delivery counts over ANY duplicate-free list of side ids *)
+Theorem C16_any_side_ids :
+  forall (sides : list nat) (posts : list post) (sched : list nat)
+         (i s0 : nat) (c0 : chan) (src : source) (s : nat) (c : chan),
+    NoDup sides -> nth_error posts i = Some (s0, c0, src) -> In s0 sides -> In s sides ->
+    count_at s c i (log (network_on sides posts sched)) = expected i (s0, c0, src) s c.
+Proof. exact any_ids_counts. Qed.
+Print Assumptions C16_any_side_ids.
+
+(* delivery counts are invariant under every injective renaming of the sides
+   (that keeps the client the client), and under the transport schedule *)
+Theorem C16_renaming_invariant :
+  forall (f : nat -> nat) (sides : list nat) (posts : list post) (sched sched' : list nat)
+         (i s0 : nat) (c0 : chan) (src : source) (s : nat) (c : chan),
+    Injective f -> f 0 = 0 -> NoDup sides ->
+    nth_error posts i = Some (s0, c0, src) -> In s0 sides -> In s sides ->
+    count_at (f s) c i (log (network_on (map f sides) (map (rename_post f) posts) sched'))
+    = count_at s c i (log (network_on sides posts sched)).
+Proof. exact renaming_invariant. Qed.
+Print Assumptions C16_renaming_invariant.
+
+(* the network of 1 client + n pilots is the instance sides = 0..n *)
+Theorem C16_network_on_standard :
+  forall (n : nat) (posts : list post) (sched : list nat),
+    network_on (sides_of n) posts sched = network n posts sched.
+Proof. exact network_on_sides_of. Qed.
+Print Assumptions C16_network_on_standard.
